@@ -14,11 +14,14 @@ func init() { extractors["C08"] = extractC08 }
 //	s.lastId = X
 //	return X, nil
 //
-// as consecutive top-level statements, for one expression X.
+// as consecutive top-level statements, for one expression X. The method is read in its alpha-normalised form
+// (`normalise`, c07.go): its receiver prints as _r whatever it is called, every local as the placeholder of its
+// declaration (so "the same X" means the same variables, not the same spelling).
 func incrGuard(p *Pkg, fd *ast.FuncDecl) bool {
 	if fd == nil || fd.Body == nil {
 		return false
 	}
+	defer p.normalise(fd)()
 	l := fd.Body.List
 	for i := 0; i+2 < len(l); i++ {
 		ifs, ok := l[i].(*ast.IfStmt)
@@ -26,7 +29,7 @@ func incrGuard(p *Pkg, fd *ast.FuncDecl) bool {
 			continue
 		}
 		cond := p.Src(ifs.Cond)
-		const pre = "s.lastId != 0 && s.lastId >= "
+		const pre = "_r.lastId != 0 && _r.lastId >= "
 		if !strings.HasPrefix(cond, pre) {
 			continue
 		}
@@ -39,7 +42,7 @@ func incrGuard(p *Pkg, fd *ast.FuncDecl) bool {
 			continue
 		}
 		as, ok := l[i+1].(*ast.AssignStmt)
-		if !ok || as.Tok != token.ASSIGN || len(as.Lhs) != 1 || p.Src(as.Lhs[0]) != "s.lastId" || p.Src(as.Rhs[0]) != x {
+		if !ok || as.Tok != token.ASSIGN || len(as.Lhs) != 1 || p.Src(as.Lhs[0]) != "_r.lastId" || p.Src(as.Rhs[0]) != x {
 			continue
 		}
 		r2, ok := l[i+2].(*ast.ReturnStmt)
@@ -51,7 +54,7 @@ func incrGuard(p *Pkg, fd *ast.FuncDecl) bool {
 		ast.Inspect(fd.Body, func(nd ast.Node) bool {
 			if a, ok := nd.(*ast.AssignStmt); ok {
 				for _, lh := range a.Lhs {
-					if p.Src(lh) == "s.lastId" {
+					if p.Src(lh) == "_r.lastId" {
 						n++
 					}
 				}
@@ -81,26 +84,38 @@ func extractC08(repo string, o *Out) {
 		}
 		o.bool(a.fact, incrGuard(p, fd), a.file+" Incr: `if s.lastId != 0 && s.lastId >= c { return 0, err }; s.lastId = c; return c, nil`")
 	}
+	// from here on every function is matched in its alpha-normalised form: receiver _r, parameters _p0, _p1, …, and a
+	// local is identified by the placeholder of its declaration (what it is assigned from), not by its name
 	next := p.Func("SeqIDGen", "Next")
+	locked := false
 	if next == nil {
 		o.problem("method SeqIDGen.Next not found")
+	} else {
+		restore := p.normalise(next)
+		locked = lockedWhole(p, next, "_r.guard")
+		restore()
 	}
-	o.bool("seqNextLocked", lockedWhole(p, next, "s.guard"), "seq.go Next: s.guard.Lock(); defer s.guard.Unlock() first")
+	o.bool("seqNextLocked", locked, "seq.go Next: s.guard.Lock(); defer s.guard.Unlock() first")
 
 	// reload: `counter, err := s.store.Incr()`; `if err != nil { return err }`; only then assignments to s.*
 	after := false
 	if rl := p.Func("SeqIDGen", "reload"); rl == nil || rl.Body == nil || len(rl.Body.List) < 3 {
 		o.problem("method SeqIDGen.reload not found or too short")
 	} else {
+		restore := p.normalise(rl)
 		l := rl.Body.List
 		a0, ok0 := l[0].(*ast.AssignStmt)
 		i1, ok1 := l[1].(*ast.IfStmt)
-		if ok0 && ok1 && a0.Tok == token.DEFINE && len(a0.Rhs) == 1 && p.Src(a0.Rhs[0]) == "s.store.Incr()" &&
-			len(a0.Lhs) == 2 && p.Src(a0.Lhs[1]) == "err" && p.Src(i1.Cond) == "err != nil" && len(i1.Body.List) == 1 {
-			if r, ok := i1.Body.List[0].(*ast.ReturnStmt); ok && len(r.Results) == 1 && p.Src(r.Results[0]) == "err" {
-				after = len(p.Calls(rl, "s.store.Incr")) == 1
+		if ok0 && ok1 && a0.Tok == token.DEFINE && len(a0.Rhs) == 1 && p.Src(a0.Rhs[0]) == "_r.store.Incr()" && len(a0.Lhs) == 2 {
+			// `err`: the second variable the call defines
+			if e, isId := a0.Lhs[1].(*ast.Ident); isId && localMark.MatchString(e.Name) && i1.Init == nil &&
+				p.Src(i1.Cond) == e.Name+" != nil" && len(i1.Body.List) == 1 {
+				if r, ok := i1.Body.List[0].(*ast.ReturnStmt); ok && len(r.Results) == 1 && p.Src(r.Results[0]) == e.Name {
+					after = len(p.Calls(rl, "_r.store.Incr")) == 1
+				}
 			}
 		}
+		restore()
 	}
 	o.bool("reloadAfterIncr", after, "seq.go reload: the store is called once, first, and an error returns before any assignment")
 
@@ -109,21 +124,33 @@ func extractC08(repo string, o *Out) {
 	if in := p.Func("", "Init"); in == nil || in.Body == nil {
 		o.problem("func Init not found")
 	} else {
+		// Init(workerId, store): `seq` is the local initialised with NewSeqIDGen(<the store parameter>, DefaultSeqStep),
+		// `err` the variable the if statement defines from seq.Init()
+		restore := p.normalise(in)
+		seq := localFrom(p, in, "NewSeqIDGen(_p1,DefaultSeqStep)")
 		stage := 0
 		for _, st := range in.Body.List {
-			src := p.Src(st)
+			src := p.rawLine(st)
+			initChecked := false // `if err := seq.Init(); err != nil { … return err … }`
+			if is, isIf := st.(*ast.IfStmt); isIf && is.Init != nil {
+				if as, ok := is.Init.(*ast.AssignStmt); ok && as.Tok == token.DEFINE && len(as.Lhs) == 1 && len(as.Rhs) == 1 && p.Src(as.Rhs[0]) == seq+".Init()" {
+					e := p.Src(as.Lhs[0])
+					initChecked = p.Src(is.Cond) == e+" != nil" && strings.Contains(p.rawLine(is.Body), "return "+e)
+				}
+			}
 			switch {
-			case stage == 0 && strings.Contains(src, "NewSeqIDGen(store, DefaultSeqStep)"):
+			case stage == 0 && seq != "" && strings.Contains(src, seq) && strings.Contains(src, "NewSeqIDGen(_p1, DefaultSeqStep)"):
 				stage = 1
-			case stage == 1 && strings.HasPrefix(src, "if err := seq.Init(); err != nil {") && strings.Contains(src, "return err"):
+			case stage == 1 && initChecked:
 				stage = 2
-			case stage == 2 && src == "seqGen = seq":
+			case stage == 2 && src == "seqGen = "+seq:
 				stage = 3
 			case strings.Contains(src, "seqGen ="):
 				stage = -1
 			}
 		}
 		apiOK = stage == 3
+		restore()
 	}
 	o.bool("apiInitFirst", apiOK, "api.go Init: the generator is installed only after seq.Init() succeeded, with DefaultSeqStep")
 }
